@@ -120,7 +120,9 @@ type got struct {
 func simC16(c *sim.Ctx) {
 	zero := c.Chance(400)
 	channel := c.Chance(600)
-	opt := c.Weighted(4, 2, 2, 2) // default, NoCopy, Lazy, Pool
+	// decode options: any combination of NoCopy, Lazy, Pool (bit 0, 1, 2)
+	opt := []int{0, 1, 2, 4, 3, 5, 6, 7}[c.Weighted(8, 4, 4, 4, 1, 2, 1, 1)]
+	noCopy, lazy, pool := opt&1 != 0, opt&2 != 0, opt&4 != 0
 	cancelAt := -1
 	if channel && c.Chance(400) {
 		cancelAt = c.Draw(30)
@@ -148,12 +150,13 @@ func simC16(c *sim.Ctx) {
 		var ps *gopacket.PacketSource
 		var opts []gopacket.PacketSourceOption
 		if !late {
-			switch opt {
-			case 1:
+			if noCopy {
 				opts = append(opts, gopacket.WithNoCopy(true))
-			case 2:
+			}
+			if lazy {
 				opts = append(opts, gopacket.WithLazy(true))
-			case 3:
+			}
+			if pool {
 				opts = append(opts, gopacket.WithPool(true))
 			}
 		}
@@ -171,13 +174,10 @@ func simC16(c *sim.Ctx) {
 		if late {
 			// the decode options are exported fields of the packet source: set
 			// them after construction, as much existing code does
-			switch opt {
-			case 1:
+			if noCopy && !(lazy || pool) {
 				ps.NoCopy = true
-			case 2:
-				ps.Lazy = true
-			case 3:
-				ps.DecodeOptions = gopacket.DecodeOptions{Pool: true}
+			} else if opt != 0 {
+				ps.DecodeOptions = gopacket.DecodeOptions{NoCopy: noCopy, Lazy: lazy, Pool: pool}
 			}
 		}
 		var sent []item       // packets the stub returned without error, in order
@@ -200,7 +200,7 @@ func simC16(c *sim.Ctx) {
 				}()
 				ch = ps.PacketsCtx(ctx)
 			}()
-			if zero && opt == 1 {
+			if zero && noCopy {
 				if !refused {
 					// keep going: deliver packets and see them corrupted
 					c.Soft("zero-copy", "not-refused", "PacketsCtx", "a zero-copy data source with NoCopy decoding was accepted on the channel interface")
@@ -599,7 +599,7 @@ func simC16(c *sim.Ctx) {
 			m := g.p.Metadata()
 			first := origData[i]
 			if !bytes.Equal(first, it.data) {
-				if zero && opt == 1 && channel {
+				if zero && noCopy && channel {
 					c.Soft("zero-copy", "corrupted-packet-delivered", "PacketsCtx", "packet %d delivered through the channel with a zero-copy source and NoCopy decoding does not hold the bytes it was read with", k-1)
 					continue
 				}
@@ -614,7 +614,7 @@ func simC16(c *sim.Ctx) {
 			// a delivered packet is never altered by later reads (copying decode)
 			// (also with NoCopy when the data source is a copying one: what
 			// ReadPacketData returned belongs to the packet)
-			if !(opt == 1 && zero) && !bytes.Equal(g.p.Data(), it.data) {
+			if !(noCopy && zero) && !bytes.Equal(g.p.Data(), it.data) {
 				c.Fail("intact", "altered-by-later-read", "PacketSource", "packet %d changed after later reads of the data source (zero-copy source %v, options %d)", k-1, zero, opt)
 			}
 		}
